@@ -366,10 +366,18 @@ def threads(seed):
     def dig_c(res):
         return hashlib.sha256(b"".join(struct.pack("<dd", x, y) for v in res for (x, y) in v)).hexdigest()[:16]
 
+    def bad_batch():
+        try:
+            cc.vectorise_batch(list(seqs[:800]) + ["ACGTNACGT"] + list(seqs[:400]))
+            return "no exception"
+        except ValueError:
+            return "ValueError"
+
     jobs = {
         "oligo vectorise_batch": lambda: dig_o(oc.vectorise_batch(list(seqs), True)),
         "oligo vectorise_one": lambda: dig_o([oc.vectorise_one(s, False) for s in seqs[:1500]]),
         "cgr vectorise_batch": lambda: dig_c(cc.vectorise_batch(list(seqs[:1500]))),
+        "cgr vectorise_batch with a bad sequence": lambda: bad_batch(),
         "kmer iterators": lambda: hashlib.sha256(repr([list(pk.KmerGenerator(s, 5)) for s in seqs[:300]]).encode()).hexdigest()[:16],
     }
     alone = {name: job() for name, job in jobs.items()}
@@ -383,7 +391,7 @@ def threads(seed):
                 got[(name, slot)] = "raised %s: %s" % (type(e).__name__, e)
         names = list(jobs)
         # the same job twice at once, and two different jobs on the same objects
-        pairs = [(n, n) for n in names] + [(names[0], names[1]), (names[0], names[2])]
+        pairs = [(n, n) for n in names] + [(names[0], names[1]), (names[0], names[2]), (names[2], names[3]), (names[3], names[2])]
         for a, b in pairs:
             ts = [threading.Thread(target=run, args=(a, 0)), threading.Thread(target=run, args=(b, 1))]
             for t in ts:
